@@ -17,6 +17,7 @@ from typing import Optional, Union
 from openqasm3.ast import (
     AccessControl,
     ArrayReferenceType,
+    BoolType,
     Identifier,
     IndexExpression,
     IntType,
@@ -134,20 +135,25 @@ class Qasm3SubroutineProcessor:
         actual_arg_value = Qasm3ExprEvaluator.evaluate_expression(actual_arg)[0]
 
         # save this value to be updated later in scope
+        # a type without a width has the width a declaration of that type would have
+        formal_size = getattr(formal_arg.type, "size", None)
+        if formal_size is None:
+            base_size = 1 if isinstance(formal_arg.type, BoolType) else 32
+        else:
+            base_size = Qasm3ExprEvaluator.evaluate_expression(formal_size)[0]
         formal_var = Variable(
             name=formal_arg.name.name,
             base_type=formal_arg.type,
-            base_size=Qasm3ExprEvaluator.evaluate_expression(formal_arg.type.size)[0],
+            base_size=base_size,
             dims=None,
             value=actual_arg_value,
             is_constant=False,
         )
         # the argument is assigned to the formal: it is converted to (and range checked
         # against) the declared type like every other assignment
-        if formal_var.base_size is not None:
-            formal_var.value = Qasm3Validator.validate_variable_assignment_value(
-                formal_var, actual_arg_value
-            )
+        formal_var.value = Qasm3Validator.validate_variable_assignment_value(
+            formal_var, actual_arg_value
+        )
         return formal_var
 
     @classmethod  # pylint: disable-next=too-many-arguments,too-many-locals,too-many-branches
